@@ -542,6 +542,12 @@ pub fn s1p_all_signatures(p: &Plan, scope: Scope, sink: &mut Sink) {
 }
 
 pub fn s2_register_identity(p: &Plan, scope: Scope, sink: &mut Sink) {
+    s2_register_identity_flags(p, scope, sink, false)
+}
+
+/// `both_flag_states`: all flags clear and all flags set in the quick tier too (C02: a shortcut
+/// keyed on WHICH registers an instruction names may forget a flag the general path handles).
+pub fn s2_register_identity_flags(p: &Plan, scope: Scope, sink: &mut Sink, both_flag_states: bool) {
     sink.tag = "S2".into();
     let flags = [0u64, ALL_FLAGS];
     for t in p.census.by_id.values() {
@@ -551,7 +557,7 @@ pub fn s2_register_identity(p: &Plan, scope: Scope, sink: &mut Sink) {
         }
         let o = ValueOpts {
             nvals: if p.tier.is_thorough() { 3 } else { 2 },
-            flags: if p.tier.is_thorough() { &flags } else { &flags[..1] },
+            flags: if p.tier.is_thorough() || both_flag_states { &flags } else { &flags[..1] },
             imms: Some(1),
             ..Default::default()
         };
@@ -695,6 +701,8 @@ pub fn s6_placement(p: &Plan, sink: &mut Sink) {
             (RO + 0x800, "ro".into()),
             (NONE + 0x800, "none".into()),
             (UNMAPPED + 0x800, "unmapped".into()),
+            // the code page itself: readable and executable, not writable
+            (CODE + 0x400, "rx".into()), // (the instruction itself sits at CODE + OFF = CODE + 0x800)
             (RW, "rw-first".into()),
             (RW + PAGE - sz, "rw-last".into()),
         ];
@@ -1209,7 +1217,7 @@ fn extra_control_templates(c: &Census) -> Vec<Tmpl> {
 /// REX.B register forms: `push rsp` (pushes the value before the decrement), `pop rsp` (the
 /// loaded value wins over the increment), `push/pop r12`, `push/pop qword [rsp+disp8]` (PUSH
 /// computes the source address before, POP the destination address after RSP moves).
-fn extra_stack_templates(c: &Census) -> Vec<Tmpl> {
+pub fn extra_stack_templates(c: &Census) -> Vec<Tmpl> {
     let mut out = vec![];
     for (k, t) in c.by_id.iter() {
         let code = k.split('|').next().unwrap_or("");
